@@ -345,10 +345,31 @@ def check(ctx):
                 for m in re.finditer(r'"(\w+)"\s*:\s*self\s*\.\s*(\w+)', e["tokens"]):
                     writer[m.group(1)] = m.group(2)
         # reader: `if let Some(x) = typegen.get("key")... { config.field = .. }`
+        # local typed views of the section (`let text = |key: &str| typegen.get(key).and_then(|v| v.as_str());`): a closure whose body looks its own
+        # parameter up with `.get(..)`; `text("projectPath")` then reads that key
+        from srclib import pat_bindings as _pb
+        getters = set()
+        def _lets(stmts):
+            for s_ in stmts:
+                if s_.get("k") == "let" and s_.get("init") is not None:
+                    yield s_
+                for x_ in ([s_.get("init")] if s_.get("k") == "let" else [s_.get("e")]):
+                    if isinstance(x_, dict):
+                        for y_ in walk(x_):
+                            for key_ in ("then", "stmts", "body", "else"):
+                                if isinstance(y_.get(key_), list):
+                                    yield from _lets([z_ for z_ in y_[key_] if isinstance(z_, dict) and z_.get("k") in ("let", "expr")])
+        for s_ in _lets(rf.body):
+            init_ = s_["init"]
+            if init_.get("k") == "closure" and s_["pat"].get("k") == "ident":
+                params_ = {b_ for p_ in init_.get("params", []) for b_ in _pb(p_)}
+                if any(x.get("k") == "mcall" and x["method"] == "get" and x["args"] and x["args"][0].get("k") == "path" and x["args"][0]["segs"][-1] in params_ for x in walk(init_["body"])):
+                    getters.add(s_["pat"]["name"])
         for e in walk_block(rf.body):
             if e.get("k") != "if":
                 continue
-            keys = [lit_str(x["args"][0]) for x in walk(e["cond"]) if x.get("k") == "mcall" and x["method"] == "get" and x["args"] and lit_str(x["args"][0])]
+            keys = [lit_str(x["args"][0]) for x in walk(e["cond"]) if x.get("args") and lit_str(x["args"][0]) and (
+                (x.get("k") == "mcall" and x["method"] == "get") or (x.get("k") == "call" and x["func"].get("k") == "path" and len(x["func"]["segs"]) == 1 and x["func"]["segs"][0] in getters))]
             if not keys:
                 continue
             key = keys[0]
